@@ -314,6 +314,74 @@ def vis_module_roundtrip():
     return n, vs
 
 
+def vis_view_sequences():
+    """TWO sub-fields set one after the other on the word object a module hands out (module in a project), every ordered
+    pair of sub-fields: the object then holds both new values (whether or not it writes through to the module), and after
+    `mod.visualization = int(word)` the module and the saved file hold them too."""
+    import rv.api as rv
+
+    vs, n = [], 0
+    old = 0x000C0101
+    picks = {f: [v for v in dom if v != ((old >> shift) & mask)][:2] for f, (shift, mask, dom) in VIS.items()}
+    for f1, f2 in itertools.permutations(VIS, 2):
+        for v1 in picks[f1][:1]:
+            for v2 in picks[f2]:
+                n += 1
+                p = rv.Project()
+                m = p.new_module(rv.m.Amplifier)
+                m.visualization = old
+                w = m.visualization
+                setattr(w, f1, v1)
+                setattr(w, f2, v2)
+                exp = old
+                for f, v in ((f1, v1), (f2, v2)):
+                    shift, mask, _dom = VIS[f]
+                    exp = (exp & ~(mask << shift)) | (v << shift)
+                case = {"vis_seq": [f1, v1, f2, v2]}
+                if int(w) != exp:
+                    vs.append(C.viol("visualization-subfield-setter", {"field": f2, "after": f1, "on": "word handed out by a module"},
+                                     {"word": hex(int(w)), "expected": hex(exp)}, case))
+                    continue
+                m.visualization = int(w)
+                l = C.load_bytes(C.save(p)).modules[1]
+                if int(m.visualization) != exp or int(l.visualization) != exp:
+                    vs.append(C.viol("visualization-roundtrip", {"after": "two sub-field edits"},
+                                     {"module": hex(int(m.visualization)), "loaded": hex(int(l.visualization)), "expected": hex(exp)}, case))
+    return n, vs[:6]
+
+
+def mod_then_module():
+    """A cell whose module was chosen through `note.mod = <module>` and then re-chosen by NUMBER (`note.module = n`): the
+    number is what the cell holds and what its byte image encodes -- and the other way round."""
+    import rv.api as rv
+    from struct import unpack
+
+    vs, n = [], 0
+    for first in ("mod", "module"):
+        for num in (0, 1, 3, 7, 0x1234):
+            n += 1
+            p = rv.Project()
+            a = p.new_module(rv.m.Amplifier)
+            b = p.new_module(rv.m.Generator)
+            pat = rv.Pattern(tracks=1, lines=1)
+            p.attach_pattern(pat)
+            nt = pat.data[0][0]
+            nt.note, nt.vel, nt.ctl, nt.val = rv.NOTECMD(5), 7, 0x1234, 0x4321
+            if first == "mod":
+                nt.mod = a
+                nt.module = num
+                want = num
+            else:
+                nt.module = num
+                nt.mod = b
+                want = b.index + 1
+            got_field = unpack("<BBHHH", nt.raw_data)[2]
+            if nt.module != want or got_field != want or pat.raw_data[2:4] != want.to_bytes(2, "little"):
+                vs.append(C.viol("note-module-column", {"order": first + "-first"},
+                                 {"expected": want, "attribute": nt.module, "encoded": got_field}, {"mod_then_module": [first, num]}))
+    return n, vs[:4]
+
+
 # ----------------------------------------------------------------------------- (c) SMII / SFGS
 def midi_in_all():
     import rv.api as rv
@@ -394,6 +462,10 @@ def run_case(case):
         old, f, v = case["vis"]
         lm, orient, size = old & 0x1F, (old >> 5) & 1, (old >> 16) & 0xFF
         return [x for x in vis_words((lm, orient, [size]))[1]]
+    if "vis_seq" in case:
+        return [v for v in vis_view_sequences()[1] if v["case"] == case]
+    if "mod_then_module" in case:
+        return [v for v in mod_then_module()[1] if v["case"] == case]
     if "vis_rt" in case:
         return vis_module_roundtrip()[1]
     if "smii" in case:
@@ -420,7 +492,7 @@ def _task(t):
         r["sample"] = {"vis_old_low_bits": t[1][:2]}
     elif kind == "misc":
         n, vs = 0, []
-        for fn in (vis_module_roundtrip, midi_in_all, sync_all):
+        for fn in (vis_module_roundtrip, vis_view_sequences, mod_then_module, midi_in_all, sync_all):
             k, v = fn()
             n += k
             vs += v
